@@ -5,6 +5,8 @@ package main
 
 import (
 	"bufio"
+	"crypto/sha1"
+	"encoding/hex"
 	"encoding/json"
 	"flag"
 	"fmt"
@@ -12,6 +14,7 @@ import (
 	"os"
 	"path/filepath"
 	"sort"
+	"strings"
 )
 
 // Case is one generated input with what the implementation did on it.
@@ -60,8 +63,11 @@ func main() {
 		key := c.Key
 		if key == "" {
 			key = "-"
+		} else if !strings.HasPrefix(key, "known:") {
+			h := sha1.Sum([]byte(key))
+			key = hex.EncodeToString(h[:10])
 		}
-		why := c.Why
+		why := strings.NewReplacer("\t", " ", "\n", " ", "\r", " ").Replace(c.Why)
 		if why == "" {
 			why = "-"
 		}
